@@ -9,6 +9,10 @@ Three kinds of operations (one line each, self-contained):
   tp via=<open|dial> host=<ip4|ip6|dns|dns4|dns6> d=<i> l=<j> exp=<k|none>    two real TcpTransports on loopback: the real
                                                                          Transport::open(id,[addr]) (+negotiate) / dial(id,addr)
                                                                          with /<host>/tcp/<port>[/p2p/<peer of key k>]
+                                                                         (observation since round tcp3: `… ep=<host kind of the
+                                                                         connection's endpoint address>`, judged by C10)
+  pn q=<items> [in=<n> acc=<0|1>] [neg=1]                                a real TcpTransport with scripted READY results in its queues,
+                                                                         polled with a counting waker (checks/tcp_poll.py; judged by C05)
 Payloads are built here by hand (protobuf) with REAL ed25519 signatures obtained from the adapter's `sign`/`pubkey`
 operations (deterministic keys 0..15) before the cases are run.
 """
